@@ -23,6 +23,6 @@ print(f"tests_missing_from_baseline={len(b - passed)}")
 PY
   rm -f "$X"
 fi
-MOUETTE_REPO="$D" VERIF_OUT_DIR="$D/out" /venv/bin/python check.py "$P" "$T" > "$D/log" 2>&1
+MOUETTE_REPO="$D" VERIF_OUT_DIR="$D/out" /venv/bin/python check.py "$P" "$T" $CHECK_ARGS > "$D/log" 2>&1
 grep -E "VIOLATION|signature=|exit=|HARNESS" "$D/log" | head -6
 rm -rf "$D"
